@@ -1,5 +1,199 @@
-(* C07 -- placeholder while the models are being tied to the implementation *)
-From Coq Require Import ZArith List Bool.
-From AV Require Import Lib.Bytes Lib.RtpX Model.Rtp Model.Rtcp.
-Theorem C07_stub : True. Proof. exact I. Qed.
-Print Assumptions C07_stub.
+(* C07 -- RTP and RTCP packets round-trip through serialisation with exact field
+   semantics.  Property theorems only; proofs live in Proof/Rtcp*P.v and Proof/Rtp*P.v.
+   Models: Model/Rtcp.v, Model/Rtp.v (aiortc/rtp.py after the three C07 repairs).
+   Well-formedness predicates (every field within its wire range):
+     wf_rtcp   Proof/RtcpPktP.v      wf_ext, one_ok   Proof/RtpP.v
+     ids_ok, wf_hext  Proof/RtpHextP.v      wf_rtp    Proof/RtpPktP.v *)
+From Coq Require Import ZArith List Bool Lia.
+From AV Require Import Lib.Bytes Lib.RtpX Gen.RtpConst Model.Rtcp Model.Rtp.
+From AV Require Import Proof.RtcpP Proof.RtcpPktP Proof.RtcpNackP Proof.RtcpTotalP.
+From AV Require Import Proof.RtpP Proof.RtpHextP Proof.RtpPktP Proof.RtpTotalP.
+Import ListNotations.
+Local Open Scope Z_scope.
+
+(* ---------------------------------------------------------------- cumulative loss *)
+(* clamp saturates at the signed 24-bit range and is the identity inside it; the
+   clamped value survives pack / unpack exactly. *)
+Theorem C07_packets_lost : forall n,
+  (-8388608 <= rtp_clamp_packets_lost n < 8388608) /\
+  (-8388608 <= n < 8388608 -> rtp_clamp_packets_lost n = n) /\
+  (8388608 <= n -> rtp_clamp_packets_lost n = 8388607) /\
+  (n < -8388608 -> rtp_clamp_packets_lost n = -8388608) /\
+  exists b, pack_packets_lost (rtp_clamp_packets_lost n) = Ok b /\
+            unpack_packets_lost b = Ok (rtp_clamp_packets_lost n).
+Proof.
+  intros n. split; [apply clamp_range|]. split; [apply clamp_id|]. split; [apply clamp_high|].
+  split; [apply clamp_low|apply packets_lost_clamped].
+Qed.
+Print Assumptions C07_packets_lost.
+
+(* ---------------------------------------------------------------- REMB *)
+(* every bitrate the 6-bit exponent can carry (b < 2^81) and every list of <= 255
+   SSRCs: the decoded bitrate never exceeds b, its relative error is below 2^-17,
+   values below 2^18 are exact, the SSRC list is preserved. *)
+Theorem C07_remb : forall b ssrcs,
+  0 <= b < 2 ^ 81 -> (length ssrcs <= 255)%nat -> Forall (fun x => 0 <= x < 4294967296) ssrcs ->
+  exists data b',
+    pack_remb_fci b ssrcs = Ok data /\ bytes_ok data /\ unpack_remb_fci data = Ok (b', ssrcs) /\
+    b' <= b /\ (0 < b -> (b - b') * 131072 < b) /\ (b < 262144 -> b' = b).
+Proof. exact remb_roundtrip. Qed.
+Print Assumptions C07_remb.
+
+(* ---------------------------------------------------------------- generic NACK *)
+(* one FCI entry (pid, blp) denotes pid and (pid + i + 1) mod 2^16 for every set bit i *)
+Theorem C07_nack_entry : forall pid blp x,
+  0 <= pid < 65536 -> 0 <= blp < 65536 ->
+  nack_parse (be16 pid ++ be16 blp) = Ok (nack_expand pid blp) /\
+  (In x (nack_expand pid blp) <->
+   x = pid \/ exists d, 0 <= d < 16 /\ Z.testbit blp d = true /\ x = (pid + d + 1) mod 65536).
+Proof.
+  intros pid blp x Hp Hb. split; [now apply nack_entry_parse|apply nack_expand_spec].
+Qed.
+Print Assumptions C07_nack_entry.
+
+(* every list of 16-bit sequence numbers (any order, duplicates, straddling
+   65535 -> 0): serialising and parsing yields 16-bit numbers denoting the same set *)
+Theorem C07_nack_set : forall fmt ssrc media lost,
+  0 <= fmt <= 31 -> RtcpPktP.is_u32 ssrc -> RtcpPktP.is_u32 media ->
+  Forall is_seq16 lost -> zlen lost <= 65532 ->
+  exists b lost',
+    rtcp_bytes (Rtpfb fmt ssrc media lost) = Ok b /\
+    rtcp_parse b = Ok [Rtpfb fmt ssrc media lost'] /\
+    Forall is_seq16 lost' /\ (forall x, In x lost' <-> In x lost).
+Proof. exact nack_set_roundtrip. Qed.
+Print Assumptions C07_nack_set.
+
+(* ---------------------------------------------------------------- RTCP compound packets *)
+(* every list of well-formed SR / RR / SDES / BYE / RTPFB / PSFB packets; for RTPFB
+   the list equality needs `nack_canonical` (consecutive numbers advance by
+   1..65520 mod 2^16, e.g. ascending lists, also across the wrap) *)
+Theorem C07_rtcp_roundtrip : forall ps,
+  Forall wf_rtcp ps ->
+  exists b, rtcp_bytes_all ps = Ok b /\ bytes_ok b /\ rtcp_parse b = Ok ps.
+Proof. exact rtcp_roundtrip. Qed.
+Print Assumptions C07_rtcp_roundtrip.
+
+(* ---------------------------------------------------------------- header extensions *)
+(* unpack (pack xs) = xs for every list of elements with ids 1..255 and values of
+   0..255 bytes; the one-byte form is chosen iff every id <= 14 and every length is
+   in 1..16; the value is padded to a multiple of 4 *)
+Theorem C07_hdrext_roundtrip : forall xs,
+  Forall wf_ext xs ->
+  exists profile value,
+    pack_header_extensions xs = Ok (profile, value) /\
+    unpack_header_extensions profile value = Ok xs /\
+    bytes_ok value /\ len value mod 4 = 0 /\ (length value <= 257 * length xs + 3)%nat /\
+    (xs = [] -> value = []) /\ (xs <> [] -> value <> []) /\
+    (xs <> [] -> profile = if forallb one_ok xs then 48862 else 4096) /\ 0 <= profile < 65536.
+Proof. exact hdrext_pack_unpack. Qed.
+Print Assumptions C07_hdrext_roundtrip.
+
+(* get (set v) = v for all seven typed extensions at once, every id table with
+   distinct ids in 1..255, every combination of present values *)
+Theorem C07_hdrext_get_set : forall m v,
+  ids_ok m -> wf_hext m v ->
+  exists profile value,
+    hext_set m v = Ok (profile, value) /\ hext_get m profile value = Ok v /\
+    bytes_ok value /\ len value mod 4 = 0 /\ (length value <= 1802)%nat /\ 0 <= profile < 65536.
+Proof. exact hext_get_set. Qed.
+Print Assumptions C07_hdrext_get_set.
+
+(* ---------------------------------------------------------------- RTP packets *)
+(* every id table, every combination of extensions, any payload, any CSRC list of
+   <= 15 entries, padding_size 0..255 with any padding bytes *)
+Theorem C07_rtp_roundtrip : forall m p pad,
+  ids_ok m -> wf_rtp m p pad ->
+  exists b, rtp_serialize m p pad = Ok b /\ bytes_ok b /\ rtp_parse m b = Ok p.
+Proof. exact rtp_roundtrip. Qed.
+Print Assumptions C07_rtp_roundtrip.
+
+(* ---------------------------------------------------------------- RTX *)
+(* unwrap (wrap p) restores every field of p; wrap_rtx itself never carries
+   padding_size (the RtpPacket constructor sets it to 0), hence the last field *)
+Theorem C07_rtx_inverse : forall p pt seq ssrc_,
+  0 <= sequence_number p < 65536 ->
+  exists r, wrap_rtx p pt seq ssrc_ = Ok r /\
+            payload_type r = pt /\ sequence_number r = seq /\ ssrc r = ssrc_ /\
+            marker r = marker p /\ timestamp r = timestamp p /\
+            unwrap_rtx r (payload_type p) (ssrc p) =
+              Ok (mkRtp (marker p) (payload_type p) (sequence_number p) (timestamp p) (ssrc p)
+                        (csrc p) (extensions p) (payload p) 0).
+Proof. exact rtx_inverse. Qed.
+Print Assumptions C07_rtx_inverse.
+
+Theorem C07_rtx_inverse_exact : forall p pt seq ssrc_,
+  0 <= sequence_number p < 65536 -> padding_size p = 0 ->
+  exists r, wrap_rtx p pt seq ssrc_ = Ok r /\ unwrap_rtx r (payload_type p) (ssrc p) = Ok p.
+Proof. exact rtx_inverse_exact. Qed.
+Print Assumptions C07_rtx_inverse_exact.
+
+(* ---------------------------------------------------------------- parsers are total (used by C05) *)
+Theorem C07_parsers_total : forall m b,
+  bytes_ok b ->
+  benign (rtp_parse m b) /\ benign (rtcp_parse b) /\ benign (unpack_remb_fci b) /\
+  (forall profile, benign (unpack_header_extensions profile b) /\ benign (hext_get m profile b)).
+Proof.
+  intros m b H. split; [now apply rtp_parse_total|]. split; [now apply rtcp_parse_total|].
+  split; [now apply unpack_remb_fci_total|]. intros profile.
+  split; [now apply unpack_header_extensions_total|now apply hdrext_get_total].
+Qed.
+Print Assumptions C07_parsers_total.
+
+(* ---------------------------------------------------------------- non-vacuity *)
+Definition ex_ids : ids := mkIds (Some 2) (Some 14) (Some 1) (Some 15) (Some 3) (Some 255) (Some 5).
+
+Example C07_example_ids_ok : ids_ok ex_ids.
+Proof.
+  split.
+  - intros k i. destruct k; cbn; intros [= <-]; lia.
+  - intros k1 k2 i. destruct k1, k2; cbn; congruence.
+Qed.
+
+Definition ex_hext : hext :=
+  mkHext (Some 16777215) (Some (true, 127)) (Some [97; 195; 169]) None (Some [104; 105])
+         (Some (-8388608)) (Some 65535).
+
+Example C07_example_wf_hext : wf_hext ex_ids ex_hext.
+Proof.
+  unfold wf_hext, ex_hext, ex_ids, present, text_ok. cbn.
+  repeat split; try congruence; try lia; try (repeat constructor; unfold byte_ok; lia).
+Qed.
+
+Definition ex_rtp : rtp :=
+  mkRtp 1 127 65535 4294967295 0 [1; 4294967295] ex_hext [1; 2; 3] 4.
+
+Example C07_example_wf_rtp : wf_rtp ex_ids ex_rtp [9; 9; 9].
+Proof.
+  unfold wf_rtp, ex_rtp. cbn [marker payload_type sequence_number timestamp ssrc csrc extensions payload padding_size].
+  unfold RtpPktP.is_u32.
+  repeat split; try lia; try apply C07_example_wf_hext;
+    try (repeat constructor; unfold byte_ok, RtpPktP.is_u32; lia).
+  all: cbn; lia.
+Qed.
+
+Example C07_example_rtp_roundtrip :
+  exists b, rtp_serialize ex_ids ex_rtp [9; 9; 9] = Ok b /\ rtp_parse ex_ids b = Ok ex_rtp.
+Proof.
+  destruct (C07_rtp_roundtrip ex_ids ex_rtp [9; 9; 9] C07_example_ids_ok C07_example_wf_rtp)
+    as (b & H1 & _ & H2). eauto.
+Qed.
+
+(* a NACK list in sequence order across the wrap is canonical; a compound packet *)
+Definition ex_rtcp : list rtcp :=
+  [Rr 1 [mkRinfo 2 255 (-8388608) 4294967295 0 1 2];
+   Sdes [(7, [(1, [97; 98]); (255, [])])];
+   Rtpfb 1 3 4 [65534; 65535; 0; 1; 17; 20000];
+   Psfb 15 3 4 [82; 69; 77; 66; 0; 0; 0; 0];
+   Bye [5; 6]].
+
+Example C07_example_wf_rtcp : Forall wf_rtcp ex_rtcp.
+Proof.
+  unfold ex_rtcp. repeat constructor; cbn; unfold RtcpPktP.is_u32, byte_ok; try lia.
+Qed.
+
+Example C07_example_nack_wrap :
+  rtcp_bytes_all [Rtpfb 1 3 4 [65534; 65535; 0; 1]] =
+    Ok [129; 205; 0; 3; 0; 0; 0; 3; 0; 0; 0; 4; 255; 254; 0; 7] /\
+  rtcp_parse [129; 205; 0; 3; 0; 0; 0; 3; 0; 0; 0; 4; 255; 254; 0; 7] =
+    Ok [Rtpfb 1 3 4 [65534; 65535; 0; 1]].
+Proof. split; vm_compute; reflexivity. Qed.
